@@ -56,7 +56,8 @@ CONSTANTS Sigma,        \* code points offered for patterns
           Discipline,   \* "full" | "prefix"
           DotAll,       \* TRUE: '.' and '.*' match LF (re.DOTALL)
           FindFirst,    \* FALSE; TRUE = buggy "first match wins"
-          Emit          \* "none" | "match" | "find"
+          Emit,         \* "none" | "match" | "find"
+          BlockLen      \* 0, or the block length L checked by BlockInvariance
 
 VARIABLES doc,          \* <<paragraph>>, paragraph = <<pattern>>, pattern = <<code point>>
           n             \* file name, <<code point>>
@@ -204,6 +205,31 @@ BadEscapeRaises ==
 
 LastWins == ImplFind(doc, n) = RefFind(doc, n)
 
+\* Size argument used by the binding (harness/props/c16.py, size-stressed concretizations): expand
+\* every name symbol c to the block c.PAD^(L-1), every literal / escaped pattern symbol likewise,
+\* '?' to '?'^L and keep '*'.  PAD occurs in no alphabet, so a symbol occurs in an expanded name only
+\* at block starts: literal blocks can only match block-aligned, '?'^L consumes one block's worth of
+\* characters, '*' takes the rest -- the verdict of the reference is the same for every L >= 1.
+\* That is what lets TLC's expectation for a 3-symbol case be used for 4097-character patterns and
+\* 64 KiB names.  TLC checks the claim itself for L = BlockLen on every enumerated case.
+PAD == 45
+RECURSIVE Rep(_, _)
+Rep(c, k) == IF k <= 0 THEN <<>> ELSE <<c>> \o Rep(c, k - 1)
+RECURSIVE BlowName(_, _)
+BlowName(nm, i) == IF i > Len(nm) THEN <<>>
+                   ELSE <<nm[i]>> \o Rep(PAD, BlockLen - 1) \o BlowName(nm, i + 1)
+RECURSIVE BlowPat(_, _)
+BlowPat(p, i) ==
+   IF i > Len(p) THEN <<>>
+   ELSE IF p[i] = STAR THEN <<STAR>> \o BlowPat(p, i + 1)
+   ELSE IF p[i] = QM THEN Rep(QM, BlockLen) \o BlowPat(p, i + 1)
+   ELSE IF p[i] = BS THEN IF i = Len(p) THEN <<BS>>
+                          ELSE <<BS, p[i + 1]>> \o Rep(PAD, BlockLen - 1) \o BlowPat(p, i + 2)
+   ELSE <<p[i]>> \o Rep(PAD, BlockLen - 1) \o BlowPat(p, i + 1)
+BlockInvariance ==
+   BlockLen > 0 => \A k \in 1..Len(doc) : \A i \in 1..Len(doc[k]) :
+       GlobMatch(BlowPat(doc[k][i], 1), BlowName(n, 1)) = GlobMatch(doc[k][i], n)
+
 \* laws the reference itself must obey (the oracle is not vacuous / not inverted)
 RefSanity ==
    \A k \in 1..Len(doc) : \A i \in 1..Len(doc[k]) :
@@ -213,6 +239,8 @@ RefSanity ==
       /\ (p = <<STAR>>) => GM(p, 1, n, 1)
       /\ (GlobOK(p) /\ GM(p, 1, n, 1)) => GM(<<STAR>> \o p, 1, <<LF>> \o n, 1)
       /\ (Len(p) = 2 /\ p[1] = BS /\ GlobOK(p)) => (GM(p, 1, n, 1) <=> n = <<p[2]>>)
+      /\ (GlobOK(p) /\ p # <<>> /\ p[Len(p)] = STAR /\ (Len(p) = 1 \/ p[Len(p) - 1] # BS \/ GlobOK(SubSeq(p, 1, Len(p) - 1)))) =>
+             (GM(p \o <<STAR, STAR>>, 1, n, 1) <=> GM(p, 1, n, 1))        \* a run of '*' is one '*'
 
 ----------------------------------------------------------------------------
 \* Emission of cases with their expected results (reference layer only)
